@@ -119,6 +119,8 @@ type Model struct {
 	ExtH    map[string]uint64
 	Ext     map[string]*ExtChain
 	NextRec map[string]uint64
+	// Sink: token -> amount delivered to contracts the scenario deployed (they keep what they receive)
+	Sink map[string]int64
 }
 
 func (m *Model) Clone() explore.Model {
@@ -165,7 +167,7 @@ func (s *Spec) Init() *explore.State {
 		s.reverter = w.Deploy(ctx, w.A("rel"), evmasm.Program{Revert: true}.InitCode())
 	}
 	m := &Model{Hold: map[string]map[string]int64{}, Recs: map[uint64]*Rec{}, Batches: map[string]*Batch{}, Calls: map[uint64]*Call{}, Dep: map[string]int64{}, Wd: map[string]int64{},
-		Escrow: map[string]int64{}, ExtSupply: map[string]int64{}, Nonce: nonces, ExtH: map[string]uint64{}, Ext: map[string]*ExtChain{}, NextRec: map[string]uint64{}}
+		Escrow: map[string]int64{}, ExtSupply: map[string]int64{}, Nonce: nonces, ExtH: map[string]uint64{}, Ext: map[string]*ExtChain{}, NextRec: map[string]uint64{}, Sink: map[string]int64{}}
 	for _, ch := range s.Chains {
 		m.ExtH[ch] = 1000
 		m.Ext[ch] = &ExtChain{Height: 1000, EventNonce: nonces[ch], Relayed: nonces[ch], BatchDone: map[string]uint64{}, CallDone: map[uint64]bool{}}
@@ -431,6 +433,9 @@ func (s *Spec) Ops(st *explore.State) []explore.Op {
 				ops = append(ops, s.callInFailOp(ch0, t, "u2"))
 			}
 			ops = append(ops, s.callInOp(ch0, t, "u2", "u2"), s.callInOp(ch0, t, "u2", "mallory"))
+			if len(m.Sink) == 0 && t == s.Tokens[len(s.Tokens)-1] {
+				ops = append(ops, s.callInReentrantOp(ch0, t))
+			}
 		}
 	}
 	ops = append(ops, explore.Op{Name: "Block", Run: func(c *explore.State) {
@@ -901,6 +906,64 @@ func (s *Spec) callInOp(ch, tok, to, refund string) explore.Op {
 	}}
 }
 
+// callInReentrantOp: an inbound bridge call carrying 2 units of tok to a contract that, while it is being called,
+// asks the precompile to execute the very claim that is delivering the tokens (and ignores the answer).
+// Ledger expectation: one observed deposit of 2 credits the contract exactly 2.
+func (s *Spec) callInReentrantOp(ch, tok string) explore.Op {
+	return explore.Op{Name: fmt.Sprintf("BridgeCallIn(%s,to=reentrant-contract)", tok), Run: func(c *explore.State) {
+		m := c.Model.(*Model)
+		tk := s.toks[tok]
+		en := m.Nonce[ch] + 1
+		data, err := cctypes.GetABI().Pack("executeClaim", ch, new(big.Int).SetUint64(en))
+		if err != nil {
+			panic(err)
+		}
+		// the guard ends the recursion: the contract re-enters only while it holds no more than the one delivery
+		prog := s.w.Deploy(c.Ctx, s.w.A("rel"), evmasm.Program{Actions: []evmasm.Action{
+			{StopIfBalanceAbove: &evmasm.BalanceGuard{Token: tk.ERC20, Amount: 2}},
+			evmasm.CallOf(evmasm.CALL, cctypes.GetAddress(), data, evmasm.Ignore)}}.InitCode())
+		m.Nonce[ch]++
+		m.ExtH[ch]++
+		claim := &cctypes.MsgBridgeCallClaim{ChainName: ch, EventNonce: en, BlockHeight: m.ExtH[ch], Sender: scen.ExtAddr(ch, "depositor"), Refund: s.w.A("u2").Hex().String(),
+			TokenContracts: []string{tk.Ext[ch]}, Amounts: []sdkmath.Int{sdkmath.NewInt(2)}, To: prog.String(), Data: "", Value: sdkmath.ZeroInt(), Memo: "", TxOrigin: scen.ExtAddr(ch, "origin")}
+		r := scen.Vote(s.w, c.Ctx, ch, s.os[ch][0], claim)
+		if !r.OK() {
+			m.Nonce[ch]--
+			res(c, false)
+			return
+		}
+		s.observeHeightEffects(c, ch, m.ExtH[ch])
+		before := scen.LastBridgeCallID(s.w, c.Ctx, ch)
+		er := s.w.CallABI(c.Ctx, s.w.A("rel"), cctypes.GetAddress(), cctypes.GetABI(), nil, 3_000_000, "executeClaim", ch, new(big.Int).SetUint64(en))
+		res(c, er.Success())
+		if !er.Success() {
+			c.Outcome = "execute-failed"
+			return
+		}
+		m.Dep[tok] += 2
+		m.ExtSupply[ch+"/"+tok] -= 2
+		if tk.Kind == "external" {
+			m.Escrow[ch+"/"+tok] -= 2
+		}
+		got := scen.Holdings(s.w, c.Ctx, tk, prog.Bytes()).Int64()
+		if n := scen.LastBridgeCallID(s.w, c.Ctx, ch); n != before {
+			// the delivery was turned into a refund record (the contract call counted as failed): nothing reaches the contract
+			c.Outcome = "refund-record"
+			k := scen.Keeper(s.w, ch)
+			oc, _ := k.GetOutgoingBridgeCallByNonce(c.Ctx, n)
+			m.Calls[n] = &Call{Nonce: n, Chain: ch, Sender: "u2", Refund: "u2", Toks: map[string]int64{tok: 2}, State: "open", Timeout: oc.Timeout}
+			if got != 0 && s.Ledger {
+				c.Violate("one-deposit-credits-once", s.sig("reentrant-receiver-credited-besides-refund-record"), fmt.Sprintf("refund record created and the contract holds %d %s", got, tok))
+			}
+			return
+		}
+		m.Sink[tok] += 2
+		if got != 2 && s.Ledger {
+			c.Violate("one-deposit-credits-once", s.sig("reentrant-receiver-credited-other-than-the-deposit"), fmt.Sprintf("one observed inbound bridge call of 2 %s left the receiving contract with %d", tok, got))
+		}
+	}}
+}
+
 // ---------------------------------------------------------------- state oracles
 
 var erc20ABI = mustERC20ABI()
@@ -940,8 +1003,8 @@ func (s *Spec) Check(st *explore.State) {
 			if s.toks[t].Kind == "external" {
 				seeded = 1000
 			}
-			if want := seeded + m.Dep[t] - m.Wd[t]; sum+flight != want {
-				st.Violate("holdings-equal-deposits-minus-withdrawals", s.sig("solvency-equation-broken/"+s.toks[t].Kind), fmt.Sprintf("%s: holders %d + in flight %d != seeded %d + deposits %d - withdrawals %d", t, sum, flight, seeded, m.Dep[t], m.Wd[t]))
+			if want := seeded + m.Dep[t] - m.Wd[t]; sum+flight+m.Sink[t] != want {
+				st.Violate("holdings-equal-deposits-minus-withdrawals", s.sig("solvency-equation-broken/"+s.toks[t].Kind), fmt.Sprintf("%s: holders %d + in flight %d + delivered to scenario contracts %d != seeded %d + deposits %d - withdrawals %d", t, sum, flight, m.Sink[t], seeded, m.Dep[t], m.Wd[t]))
 			}
 		}
 	}
